@@ -86,3 +86,22 @@ Example C10_closed_form_runs :
   map (fun i => map (fun j => Qcanon.this (mm QcS 3 A (gen_inverse3 QcS A) i j)) [0; 1; 2]) [0; 1; 2]
   = map (map (fun z => Qcanon.this (Qcanon.Q2Qc (QArith_base.inject_Z z)))) [[1; 0; 0]; [0; 1; 0]; [0; 0; 1]]%Z.
 Proof. vm_compute. reflexivity. Qed.
+
+(** * Dependency on the triangular kernels.  The block / recursive strategies compute their off-diagonal blocks
+    with tmatmul and tinverse (unary_lu_op.h, unary_inv_op.h); what is proved about those kernels is C17.  The tie of
+    the C17 model to the source - k-range clipping and the drivers' blocking, call sites and tag passing, as translated
+    by lib/cxx2v.py on this run - is therefore re-checked here as well. *)
+From FastorV Require Import Model.Cfg Model.TMatmul Gen.Generated Proofs.GenEq.
+Theorem C10_depends_on_tmatmul_source_tie :
+  (forall tl tr K R C i j, gen_find_kfirst tl tr i j = find_kfirst tl tr i j /\ gen_find_klast tl tr K R C i j = find_klast tl tr K R C i j) /\
+  (forall c W M K N,
+     gen_tmbase_calls (outer_block c) (inner_block c) W M K N = model_tm_calls c W M N false /\
+     gen_tmbase_masked_calls (outer_block c) (inner_block c) W M K N = model_tm_calls c W M N true /\
+     gen_tmbase_loops (outer_block c) (inner_block c) W M K N = model_loops c W M N false /\
+     gen_tmbase_masked_loops (outer_block c) (inner_block c) W M K N = model_loops c W M N true).
+Proof.
+  split.
+  - intros. exact (conj (gen_find_kfirst_eq tl tr i j) (gen_find_klast_eq tl tr K R C i j)).
+  - intros. exact (conj (gen_tmbase_calls_eq c W M K N) (conj (gen_tmbase_masked_calls_eq c W M K N)
+      (conj (gen_tmbase_loops_eq c W M K N) (gen_tmbase_masked_loops_eq c W M K N)))).
+Qed.
